@@ -762,6 +762,11 @@ namespace Pistache::Http
 
     std::streamsize ResponseStream::write(const char* data, std::streamsize sz)
     {
+        // a chunk of size zero is the last-chunk marker: writing no data must not
+        // terminate the stream
+        if (sz <= 0)
+            return 0;
+
         std::ostream os(&buf_);
         os << std::hex << sz << crlf;
         os.write(data, sz);
